@@ -102,7 +102,10 @@ DtFields gen_dt(vf::Src& s) {
 	case 1: { static const long long ys[] = { 10000, 12376, 99999, 292277026596LL, 292277026597LL, 292278994, 292278995, 5879610, 5879611, 5881580, 294247, 294248, 4083, 6053, 6054 }; f.y = ys[s.draw(15)]; f.ysign = "+"; break; }
 	case 2: { static const long long ys[] = { 1, 4, 100, 1241, 9999, 10000, 292277022657LL, 292277022658LL, 292275055, 292275056, 5877641, 5877642, 290308, 290309, 2114, 2115 }; f.y = ys[s.draw(16)]; f.ysign = "-"; break; }
 	case 3: f.y = static_cast<i128>(s.draw(3000)); break;
-	case 4: f.y = static_cast<i128>(s.draw(400000000000ULL)); f.ysign = s.coin() ? "+" : "-"; break;
+	case 4: if (s.chance(1, 3)) {   // within 0.2 % of the range end of the coarse 64-bit targets (days, hours, minutes): an overflow pre-check that is slightly too loose only shows here
+			static const long long ends[] = { 25252734927764585LL, 1052197288656857LL, 17536621477614LL }; const long long e = ends[s.draw(3)]; const long long off = static_cast<long long>(s.draw(static_cast<uint64_t>(e / 500)));
+			f.y = s.chance(1, 4) ? e - off : e + off; f.ysign = s.coin() ? "+" : "-"; break; }
+		f.y = static_cast<i128>(s.draw(400000000000ULL)); f.ysign = s.coin() ? "+" : "-"; break;
 	case 5: f.y = 1900 + static_cast<i128>(s.draw(400)); { static const char* sg[] = { "", "+-", "-+", "--", "++", " ", "+ " }; f.ysign = sg[s.draw(7)]; } break;
 	case 6: if (s.chance(1, 4)) { const i128 lim = static_cast<i128>(1) << 63; static const long off[] = { 0, 1, 2, 398, 399, 400, 401, 1000 }; f.y = lim - off[s.draw(8)] + (s.chance(1, 8) ? 1 : 0); f.ysign = s.chance(3, 4) ? "-" : "+"; break; }   // the ends of the 64-bit year range (KF-62)
 		{ f.y = static_cast<i128>(s.draw(0)); if (s.coin()) f.y = f.y * 1000 + 7; f.ysign = s.coin() ? "+" : "-"; break; }   // up to and beyond 2^64
